@@ -258,6 +258,7 @@ func run(c *vf.Ctx) {
 	c.Rule("A: grid key{rsa1024,rsa2048[,3072,4096],p256,p384,p521,ed25519(value and pointer)} x passphrase{none,'x',40 bytes} x comment{'',text, lengths 0..7 for every padding length}: " +
 		"Marshal -> reference decode (byte-for-byte for unencrypted) -> ParseRaw*/Parse* equal key, signer, 4 wrong passphrases, missing passphrase, ssh-keygen -y/-p; " +
 		"B: files of the reference encoder (unencrypted x every padding length; encrypted: cipher{aes256-ctr,aes256-cbc} x rounds{1,16[,2,3,64,2048]} x salt length x comment) and of ssh-keygen (type x {plain,'x',40 bytes,aes256-cbc,rounds 1,3[,64]}) parse to the reference-decoded key; " +
+		"C2: every non-empty subset of the redundant copies of the key {outer blob, public field(s), ed25519 public half, seed/scalar/d,p,q,iqmp} replaced by a second key's values, unencrypted and aes256-ctr; " +
 		"C: every single fault of a valid unencrypted file per key type (outer key, each private/public field replaced or swapped, scalar d+n/-d/0/n-d, check-ints, every padding byte x3, nkeys, trailing, lengths); " +
 		"non-trivial = distinct (part,key,variant) that reached the comparison; oracle = reference openssh-key-v1 model + sign/verify + stored public key")
 	c.Assume("crypto/rsa, crypto/ecdsa, crypto/ed25519, math/big of the standard library are correct; ssh-keygen (when present) is OpenSSH 9.2")
@@ -304,6 +305,7 @@ func run(c *vf.Ctx) {
 	c.Set("seconds_part_B", time.Since(t0).Seconds())
 	t0 = time.Now()
 	partC(c, keys, g)
+	partC2(c, keys)
 	c.Set("seconds_part_C", time.Since(t0).Seconds())
 }
 
@@ -1173,4 +1175,161 @@ func outer(f *kv.File) []byte {
 		return nil
 	}
 	return f.PubBlobs[0]
+}
+
+// ---- part C2: every subset of the redundant copies replaced by another key's values ----
+//
+// A file states the key several times: the outer public key blob, the public fields of
+// the private section (ed25519: public field AND public half of the 64 byte private field;
+// ecdsa: point; rsa: modulus) and the private value itself (seed; scalar; d, p, q, iqmp).
+// Part C replaces one copy at a time; a parser that compares the copies pairwise but with
+// a wrong connective (accept if ANY pair agrees) only shows with two or more copies
+// replaced together. Here EVERY non-empty subset of the copies is replaced, consistently,
+// by the values of a second key B of the same type, in an unencrypted file and in a
+// passphrase protected one (aes256-ctr, reference-encrypted). Oracle as in part C.
+
+type copyPart struct {
+	name string
+	set  func(f *kv.File, s *kv.Section, b *kv.Key, bf [][]byte)
+}
+
+func copyParts(keyType string) []copyPart {
+	outerPart := copyPart{"outer public key", func(f *kv.File, s *kv.Section, b *kv.Key, bf [][]byte) { f.PubBlobs[0] = b.Public().Blob() }}
+	field := func(name string, i int) copyPart {
+		return copyPart{name, func(f *kv.File, s *kv.Section, b *kv.Key, bf [][]byte) { s.Fields[i] = append([]byte{}, bf[i]...) }}
+	}
+	switch keyType {
+	case sr.ED25519:
+		return []copyPart{outerPart, field("public field", 0),
+			{"public half of the private field", func(f *kv.File, s *kv.Section, b *kv.Key, bf [][]byte) { copy(s.Fields[1][32:], b.Ed25519[32:]) }},
+			{"seed", func(f *kv.File, s *kv.Section, b *kv.Key, bf [][]byte) { copy(s.Fields[1][:32], b.Ed25519[:32]) }}}
+	case sr.RSA:
+		return []copyPart{outerPart, field("n", 0), field("d", 2), field("iqmp", 3), field("p", 4), field("q", 5)}
+	default:
+		return []copyPart{outerPart, field("public point", 1), field("private scalar", 2)}
+	}
+}
+
+func partC2(c *vf.Ctx, keys []tkey) {
+	type caseC2 struct {
+		t    tkey
+		mask int
+		enc  bool
+	}
+	var cases []caseC2
+	for _, t := range keys {
+		if t.alt == nil {
+			continue
+		}
+		n := len(copyParts(t.k.Type))
+		for mask := 1; mask < 1<<n; mask++ {
+			cases = append(cases, caseC2{t, mask, false}, caseC2{t, mask, true})
+		}
+	}
+	c.Set("copy_subset_cases", len(cases))
+	pass := []byte("c2 pass")
+	c.ParallelFor(len(cases), func(i int) {
+		cs := cases[i]
+		parts := copyParts(cs.t.k.Type)
+		block := 8
+		if cs.enc {
+			block = 16
+		}
+		f, _ := kv.NewFile(cs.t.k, "c2", uint32(0xC2C20000+i))
+		s := kv.NewSection(cs.t.k, "c2", uint32(0xC2C20000+i), block)
+		f, s = cloneFS(f, s)
+		bf := cs.t.alt.Fields()
+		var names []string
+		for pi, p := range parts {
+			if cs.mask&(1<<pi) != 0 {
+				p.set(f, s, cs.t.alt, bf)
+				names = append(names, p.name)
+			}
+		}
+		all := cs.mask == 1<<len(parts)-1
+		s.Pad = nil
+		s.Pad = kv.PadFor(len(s.Bytes()), block)
+		f.Priv = s.Bytes()
+		plainView := *f // what the file says once decrypted (reference view)
+		fileForm := "unencrypted"
+		if cs.enc {
+			fileForm = "aes256-ctr"
+			ef, err := kv.EncryptedFileFromSection(f.PubBlobs[0], s.Bytes(), "aes256-ctr", pass, c.Bytes("saltC2", i, 16), 1)
+			if err != nil {
+				c.Violation("harness: reference cannot encrypt", err.Error())
+				return
+			}
+			f = ef
+		}
+		bin := f.Bytes()
+		pemText := kv.Armor(bin)
+		replaced := strings.Join(names, " + ")
+		det := map[string]any{"key": cs.t.name, "replaced_by_key_B": replaced, "file": fileForm, "file_pem": string(pemText)}
+		if cs.enc {
+			det["passphrase"] = string(pass)
+		}
+		var got any
+		var err error
+		p, pv, _ := vf.Protect(func() {
+			if cs.enc {
+				got, err = ssh.ParseRawPrivateKeyWithPassphrase(pemText, pass)
+			} else {
+				got, err = ssh.ParseRawPrivateKey(pemText)
+			}
+		})
+		c.Eval(1)
+		if p {
+			det["panic"] = fmt.Sprint(pv)
+			c.Violation("parser panics on a file with several copies of the key replaced", det)
+			return
+		}
+		fam := map[string]string{sr.RSA: "rsa", sr.ED25519: "ed25519"}[cs.t.k.Type]
+		if fam == "" {
+			fam = "ecdsa"
+		}
+		refReason := ""
+		if e := kv.Consistent(&plainView, s); e != nil {
+			refReason = e.Error()
+		}
+		c.Nontrivial(fmt.Sprintf("C2/%s/%s/%s", cs.t.name, fileForm, replaced))
+		if err != nil {
+			if all {
+				// every copy replaced: this IS key B's well-formed file
+				det["err"] = err.Error()
+				c.Violation("well-formed file rejected (all copies of the key replaced by another key's = that key's file)", det)
+			}
+			c.Outcome("copy subset: rejected")
+			return
+		}
+		if all {
+			if e := sameKey(got, cs.t.alt); e != nil {
+				c.Violation("well-formed file parsed to a different key", det)
+			}
+		}
+		fail, d := useKey(got, plainView.PubBlobs[0], c.Bytes("msgC2", i, 24))
+		if fail == "" {
+			if refReason != "" {
+				c.Outcome("copy subset: accepted, usable key (reference notes an unused redundant field)")
+			} else {
+				c.Outcome("copy subset: accepted, consistent")
+			}
+			return
+		}
+		det["info"], det["reference"] = d, refReason
+		cls := ""
+		switch fail {
+		case "public key differs from the one stored in the file":
+			cls = "accepts a file whose outer public key differs from the key in its private section; the returned key's public key is not the one stored in the file"
+		case "panic":
+			cls = "accepted key panics when used: " + fam + ": copies replaced: " + replaced
+		default:
+			why := strings.TrimPrefix(refReason, fam+": ")
+			if why == "" {
+				why = "(the reference finds the file consistent)"
+			}
+			cls = "accepts a key that is not internally consistent (" + fail + "): " + fam + ": " + why
+		}
+		c.Violation(cls, det)
+		c.Outcome("copy subset: accepted-inconsistent")
+	})
 }
